@@ -9,7 +9,11 @@ def b (s : String) : Bytes := s.toUTF8.toList
 def rulesAll : List Rule := [
   ⟨b "x-lang", fun v => v.take 1, b "d0"⟩,                       -- class = first byte
   ⟨b "x-size", fun v => if v.length < 3 then b "s" else b "l", b "d1"⟩,   -- class = short / long
-  ⟨b "x-any", fun _ => b "c", b "d2"⟩]                            -- constant
+  ⟨b "x-any", fun _ => b "c", b "d2"⟩,                            -- constant
+  -- names that occur inside the always-advertised `accept-encoding, range`
+  ⟨b "accept", fun v => v.take 1, b "d3"⟩,
+  ⟨b "accept-language", fun v => if v.length < 3 then b "s" else b "l", b "d4"⟩,
+  ⟨b "encoding", fun _ => b "c", b "d5"⟩]
 
 def digest (t : Tuple) : Nat :=
   t.foldl (fun acc v => (v.foldl (fun a x => (a * 257 + x.toNat + 1) % 1000000007) ((acc * 31 + 7) % 1000000007))) 17
